@@ -46,6 +46,7 @@ package batchrelease
 //@ ensures completed_only_after_finalize: newStatus.Phase == v1beta1.RolloutPhaseCompleted ==> old(newStatus.Phase) == v1beta1.RolloutPhaseCompleted || (old(newStatus.Phase) == v1beta1.RolloutPhaseFinalizing && #Finalize == 1 && #Finalize.ret0 == nil)
 //@ ensures finalize_only_when_finalizing: #Finalize > 0 ==> old(newStatus.Phase) == v1beta1.RolloutPhaseFinalizing
 //@ ensures progressing_after_init: newStatus.Phase == v1beta1.RolloutPhaseProgressing && old(newStatus.Phase) != v1beta1.RolloutPhaseProgressing ==> #Initialize == 1 && #Initialize.ret0 == nil
+//@ ensures hands_the_status_back: result1 == newStatus
 
 //@ func signalRecalculate
 //@ props C01 C11
@@ -78,3 +79,16 @@ package batchrelease
 //@ ensures removes_only_when_completed: #updFin == 1 && #updFin.arg2 == util.RemoveFinalizerOpType ==> deleting(release) && release.Status.Phase == v1beta1.RolloutPhaseCompleted
 //@ ensures own_finalizer: #updFin == 1 ==> #updFin.arg3 == ReleaseFinalizer && iref(#updFin.arg1) == release
 //@ ensures never_removes_while_alive: !deleting(release) ==> #updFin == 0 || #updFin.arg2 == util.AddFinalizerOpType
+
+// (F17) Reconcile writes the status Do hands back and logs it: Do returns one on every path, also when no release
+// controller can be built for the workload reference (unsupported kind) - otherwise Reconcile dereferences nil and the
+// process crashes on every reconcile of that object, including the ones that should let it be deleted.
+//@ func (*Executor).Do
+//@ props C18 C09
+//@ requires r != nil && release != nil
+//@ ensures status_always_returned: result1 != nil
+
+//@ func getInitializedStatus
+//@ props C18 C09
+//@ requires status != nil
+//@ ensures a_copy_never_nil: result != nil
